@@ -312,6 +312,8 @@ def deserialize_address(address, encoding=None, network=None):
             witver = pkh_incl[0] - 0x50 if pkh_incl[0] else 0
             prefix = address[:address.rfind('1')]
             networks = network_by_value('prefix_bech32', prefix)
+            if network and network not in networks:
+                raise BKeyError("Network %s not found in extracted networks: %s" % (network, networks))
             witness_type = 'segwit' if not witver else 'taproot'
             if witver:
                 script_type = 'p2tr'
